@@ -4,6 +4,7 @@ from vf import Machinery, log
 
 # per property: universes (spec/Imports_<u>.cfg) and Go-side drivers "name:count"
 PROFILE = {
+    "C02": dict(universes=[], drivers=[], compose=True),
     "C03": dict(universes=["collide", "history"], drivers=["mix:%d", "stdpairs:200"]),
     "C04": dict(universes=["nulls", "collide"], drivers=["hints:%d", "nullrefs:%d"]),
     "C05": dict(universes=["collide", "reserved"], drivers=["reserved:0", "paths:%d", "compete:%d"]),
@@ -58,6 +59,12 @@ def check(run, args):
     cmd = ["imports", trace, stats]
     for hf in hist_files:
         cmd += ["--hists", hf]
+    if prof.get("compose"):
+        # (A) for C02 is the pipeline model: a nil result only after formatting succeeded, output = formatted bytes
+        run.tlc("JenOutput.tla", "Output.cfg", workers=4)
+        os.remove(os.path.join(d, "output_cases.ndjson"))
+        run.tlc("ExportTable.tla", "ExportTable.cfg", workers=1, count=False)
+        cmd += ["--compose", os.path.join(d, "table.json"), str(60000 if thorough else 4000)]
     for drv in prof["drivers"]:
         cmd += ["--driver", drv % n if "%d" in drv else drv]
     run.harness_run(cmd)
